@@ -132,7 +132,7 @@ func cmdDev(cmd string, args []string) {
 		fmt.Println(len(obls), "obligations")
 		return
 	}
-	header := e.u.header()
+	header := e.u
 	t0 := time.Now()
 	runObligations(obls, header, time.Duration(*timeout)*time.Second, false)
 	np := 0
@@ -197,7 +197,7 @@ func expandFuncs(e *Engine, pats []string) []string {
 }
 
 // runObligations discharges obligations in parallel.
-func runObligations(obls []*Obligation, header string, timeout time.Duration, all bool) {
+func runObligations(obls []*Obligation, header *Universe, timeout time.Duration, all bool) {
 	sem := make(chan struct{}, 16)
 	var wg sync.WaitGroup
 	for _, o := range obls {
@@ -218,7 +218,7 @@ func runObligations(obls []*Obligation, header string, timeout time.Duration, al
 }
 
 // runCovers returns the obligations whose program point could not be shown reachable.
-func runCovers(obls []*Obligation, header string, timeout time.Duration) []*Obligation {
+func runCovers(obls []*Obligation, header *Universe, timeout time.Duration) []*Obligation {
 	sem := make(chan struct{}, 16)
 	var wg sync.WaitGroup
 	var mu sync.Mutex
